@@ -165,7 +165,7 @@ fn classify(c: &Case, xs: &[f64], t: usize, got: f64, eps: f64) -> &'static str 
             let n = if let Spec::Ma(_, pn, ..) = &c.spec { *pn } else { n };
             let r = oe::pfe(xs[..=t].to_vec().as_slice(), n, c.ma);
             match r[t] {
-                Some(e) if e.abs() > 1.0 + 1e-9 && (e - got).abs() <= 1e-6 * e.abs().max(1.0) => "defining_formula_of_C11_itself_exceeds_range",
+                Some(e) if e.abs() > 1.0 + 16.0 * eps && (e - got).abs() <= 1e-9 * e.abs().max(1.0) => "defining_formula_of_C11_itself_exceeds_range",
                 _ => "any",
             }
         }
